@@ -1402,8 +1402,8 @@ fn horizon(case: &RCase) -> usize {
 }
 
 /// E1 body: document x script x worker count x poll mode, then every poll decision / schedule.
-pub fn reader_body(ch: &Chooser, cases: &[RCase], workers: &[usize], modes: &[PollMode]) -> Outcome {
-    let case = ch.pick_free("doc", cases);
+pub fn reader_body(ch: &Chooser, cases: &[&RCase], workers: &[usize], modes: &[PollMode]) -> Outcome {
+    let case = *ch.pick_free("doc", cases);
     let script = &case.scripts[ch.free("script", case.scripts.len())];
     let w = if case.workers_apply { *ch.pick_free("workers", workers) } else { 1 };
     let mode = ch.pick_free("mode", modes).clone();
